@@ -18,8 +18,12 @@ CLAIM = dict(
          "issues is scheme://bound-host/script-root/ + a relative path without '?' or '#' + the bound query string for slash / merged-slash "
          "redirects - for every request path including '//host/...' forms - or the canonical URL the builder produced for a rule of the matched "
          "endpoint, on [subdomain.]bound-server), C12_host_is_bound_server, C12_redirect_addresses_target, C12_converges_partial (the rule that "
-         "caused a slash / merged-slash redirect admits the target directly for the same method) and C12_converges_one_hop (the matcher answers "
-         "the follow-up of such a redirect with a direct match: no further redirect of that kind, no NotFound / 405). "
+         "caused a slash / merged-slash redirect admits the target directly for the same method), C12_converges_one_hop (the matcher answers "
+         "the follow-up of such a redirect with a direct match: no further redirect of that kind, no NotFound / 405), C12_converges (for maps "
+         "without a trailing path converter the follow-up is answered by the very rule that caused the redirect, with the same arguments - an "
+         "order isomorphism between the two searches of the transition tree), C12_defaults_converge and C12_alias_converge (the URL the builder "
+         "produced for the canonical rule is answered by that rule and not redirected again, given a canonical rule that is not shadowed and "
+         "distinct traces within the endpoint). "
          "Tied to the code by the regenerated constants and statement pins of coq/C03/Gen.v and by differential execution (extracted model vs "
          "werkzeug, defaults and alias redirects included) on maps x adapters (schemes, script roots, subdomains, query arguments) x paths; an "
          "impl-level oracle follows every redirect to a match of the denoted endpoint and arguments within 3 hops; adapters are bound with Map.bind "
@@ -27,7 +31,9 @@ CLAIM = dict(
          "end through a WSGI application and the test client, which must see the query arguments of the original request.",
     note="Trusted: as C03 and C04; urllib.parse.urlunsplit/quote hand-modelled; encode_query_args of a mapping (werkzeug.urls._urlencode) is an "
          "input of the model (the encoded string); that the follow-up of a slash redirect is a match of the very rule that caused it (not only of a "
-         "priority-minimal rule serving the target) is checked by the harness only; redirect_to targets, alias rules without a canonical rule and rules shadowing each other's "
+         "priority-minimal rule serving the target) is proved for maps without a trailing path converter and checked by the harness for the rest; "
+         "the defaults / alias convergence theorems take the well-formedness of the built URL (the C04 derivation) and float-free values as "
+         "hypotheses; redirect_to targets, alias rules without a canonical rule and rules shadowing each other's "
          "canonical URL are outside the claim.",
     design="6/C12")
 
@@ -408,7 +414,7 @@ def main(chk: Check) -> None:
     except px.Unsupported as e:
         chk.broken("translator", "C03/Gen.v", str(e))
     chk.forbidden_scan()
-    if chk.coq_make(["C12/Proofs.vo", "C12/Extract.vo"]):
+    if chk.coq_make(["C12/Proofs.vo", "C12/ConvergeProofs.vo", "C12/CanonProofs.vo", "C12/Extract.vo"]):
         chk.audit_props("C12/Props.v")
     else:
         chk.cov["obligations"] += 1
